@@ -57,5 +57,5 @@ for how, nm in [(0, 'swap'), (1, 'move')]:
 for pp, pf in [(4, 1), (4, 0)]:   # p=0 (null document turned into an array by the assignment) gave no verdict: VariantData::clear recursion over a symbolic tag
     OBS.append(Ob(['C05', 'C04'], 'hist_pad_p%d_fail%d' % (pp, pf), 'doc', 'harness/doc_hist.c', 'h_pad_fail', defs=['PADP=%d' % pp, 'PADFAIL=%d' % pf], unwind=8, desc='doc[%d] = x on %d elements with %s: %s' % (pp + 1, pp, 'one transient failure of the pool allocation for the first padding element' if pf else 'no failure', 'reported, overflowed(), nothing at a wrong index' if pf else 'null gap, value at its index'), bound='all int32 values', **H))
 for rk, nm in [(0, 'raw'), (1, 'copied_string')]:
-    OBS.append(Ob(['C06', 'C14', 'C19'], 'release_' + nm, 'doc', 'harness/doc_hist.c', 'h_raw_release', defs=['RAWKIND=%d' % rk], unwind=8, desc='doc.set(%s of 2 bytes); doc.set(int): the string node is released exactly when the value is replaced' % nm, bound='all byte pairs, all int32', **H))
+    OBS.append(Ob(['C06', 'C14', 'C19'], 'release_' + nm, 'doc', 'harness/doc_hist.c', 'h_raw_release', defs=['RAWKIND=%d' % rk], unwind=8, desc='element.set(%s of 2 bytes); element.set(int): the string node is released exactly when the value is replaced (VariantData::clear)' % nm, bound='all byte pairs, all int32', **H))
 OBS.append(Ob(['C05', 'C19', 'C06'], 'hist_add_str_fail', 'doc', 'harness/doc_hist.c', 'h_add_str_fail', unwind=8, desc='[a,a,a]; add(copied string) whose node allocation fails; add(b): failure reported, slot given back (no allocator call for b), document [a,a,a,b]', bound='all int32 values, all byte pairs', **H))
